@@ -322,9 +322,22 @@ pub fn shapes(neighbours: bool) -> Vec<Universe> {
 /// been skipped, offered or started.  One universe per graph: a chain step can change inputs and
 /// delete outputs but not the graph.
 pub fn late_gadget(free: usize, x_edges: bool) -> Vec<Universe> {
+    late_gadget_opts(free, x_edges, true, None)
+}
+
+/// `below_e0_only`: keep only graphs in which every free slot hangs below e0; `kinds`: restrict the
+/// free slots to one kind vector.  Without the filter the family also contains jobs that depend on
+/// x only: paths of different length from x to a job that e0 feeds as well (a failure of x travels
+/// along them wave by wave while e0's reconsideration of the same job is already queued).
+pub fn late_gadget_opts(free: usize, x_edges: bool, below_e0_only: bool, kinds: Option<Vec<Kind>>) -> Vec<Universe> {
     let names = ["s", "t", "v", "w"];
     let mut out = Vec::new();
     for ks in kind_vectors(free) {
+        if let Some(k) = &kinds {
+            if *k != ks {
+                continue;
+            }
+        }
         // candidate edges: (up, down) over indexes 0=x 1=n 2=e0 3.. = free slots
         let mut cand: Vec<(usize, usize)> = Vec::new();
         for i in 0..free {
@@ -361,12 +374,16 @@ pub fn late_gadget(free: usize, x_edges: bool) -> Vec<Universe> {
             }
             // every free slot hangs (directly or not) below e0: anything else is a smaller gadget
             // next to an unrelated job, which the slot families cover
-            if !below_e0.iter().all(|b| *b) {
+            if below_e0_only && !below_e0.iter().all(|b| *b) {
+                continue;
+            }
+            // every free slot is connected to something, and e0 feeds at least one of them
+            if !below_e0_only && (!touched.iter().all(|b| *b) || !below_e0.iter().any(|b| *b)) {
                 continue;
             }
             let g = Graph { jobs, edges };
             out.push(Universe {
-                label: format!("late{}{}:{}:{:b}", free, if x_edges { "x" } else { "" }, kind_label(&ks), es),
+                label: format!("late{}{}{}:{}:{:b}", free, if x_edges { "x" } else { "" }, if below_e0_only { "" } else { "u" }, kind_label(&ks), es),
                 graphs: vec![g],
             });
         }
@@ -480,4 +497,9 @@ pub fn chains(maxk: usize) -> Vec<Universe> {
         }
     }
     out
+}
+
+/// the unfiltered 6-job late-requirement family with Output / Ephemeral free slots only
+pub fn late3xu_oe() -> Vec<Universe> {
+    late_gadget_opts(3, true, false, None).into_iter().filter(|u| !u.label.split(':').nth(1).unwrap_or("").contains('A')).collect()
 }
